@@ -859,6 +859,74 @@ def _instantiate(self, ex, st, fr, cls, args, kwargs):
 MocloModels.instantiate = _instantiate
 
 
+# reflection used by moclo._utils.isabstract (assumed meaning of the three library functions; D-REFLECT)
+def m_inspect_isabstract(ex, st, fr, args, kwargs):
+    (c,) = args
+    if not (isinstance(c, VClass) and hasattr(c, "sym")):
+        raise Unsupported("inspect.isabstract(%r)" % (c,))
+    ex.used_models.add("D-REFLECT")
+    return [(st, "ok", VT(tm.app("abc_abstract", BOOL, c.sym)))]
+
+
+def m_dir(ex, st, fr, args, kwargs):
+    (c,) = args
+    if not (isinstance(c, VClass) and hasattr(c, "sym")):
+        raise Unsupported("dir(%r)" % (c,))
+    ex.used_models.add("D-REFLECT")
+    return [(st, "ok", VT(tm.app("cls_dir", tm.seq_sort(STR), c.sym), "list"))]
+
+
+def m_getattr3(ex, st, fr, args, kwargs):
+    if len(args) != 3 or not (isinstance(args[0], VClass) and hasattr(args[0], "sym")) or not (
+            isinstance(args[1], VT) and args[1].t.sort == STR) or not isinstance(args[2], VNone):
+        raise Unsupported("getattr%r" % (tuple(args),))
+    ex.used_models.add("D-REFLECT")
+    o = VObj("ClassAttrValue")
+    return [(st.set(o, "is_notimpl", VT(tm.app("attr_is_notimplemented", BOOL, args[0].sym, args[1].t))), "ok", o)]
+
+
+M.ASSUMPTIONS["D-REFLECT"] = ("inspect.isabstract(cls), dir(cls) and getattr(cls, name, None) are functions of the class: abc_abstract(cls), "
+                              "the sequence cls_dir(cls) of attribute names, and whether the value found is the NotImplemented singleton")
+
+_prev_builtin3 = MocloModels.builtin
+
+
+def _builtin3(self, name):
+    if name == "dir":
+        return VModel("dir", m_dir)
+    if name == "getattr":
+        return VModel("getattr", m_getattr3)
+    return _prev_builtin3(self, name)
+
+
+MocloModels.builtin = _builtin3
+
+_prev_external_r = MocloModels.external
+
+
+def _external_r(self, base, attr):
+    name = "%s.%s" % (base, attr) if base else attr
+    if name == "inspect.isabstract":
+        return VModel("inspect.isabstract", m_inspect_isabstract)
+    return _prev_external_r(self, base, attr)
+
+
+MocloModels.external = _external_r
+
+_prev_identical_r = MocloModels.identical
+
+
+def _identical_r(self, ex, st, a, b):
+    from .values import VNotImplemented
+    for x, y in ((a, b), (b, a)):
+        if isinstance(x, VObj) and x.kind == "ClassAttrValue" and isinstance(y, VNotImplemented):
+            return st.get(x, "is_notimpl").t
+    return _prev_identical_r(self, ex, st, a, b)
+
+
+MocloModels.identical = _identical_r
+
+
 def m_isabstract(ex, st, fr, args, kwargs):
     """moclo._utils.isabstract(cls) (inspect.isabstract or a NotImplemented attribute): a constant of the class"""
     (c,) = args
